@@ -4,6 +4,7 @@
 package atomic
 
 import (
+	"reflect"
 	"unsafe"
 
 	"filippo.io/edwards25519/vsched"
@@ -18,9 +19,34 @@ type word[T comparable] struct {
 	vc vsched.VC
 }
 
+func observe[T comparable](v T) {
+	switch x := any(v).(type) {
+	case int32:
+		vsched.Observe(uint64(x))
+	case int64:
+		vsched.Observe(uint64(x))
+	case uint32:
+		vsched.Observe(uint64(x))
+	case uint64:
+		vsched.Observe(x)
+	case uintptr:
+		vsched.Observe(uint64(x))
+	case bool:
+		if x {
+			vsched.Observe(1)
+		} else {
+			vsched.Observe(0)
+		}
+	default:
+		// pointers: identity only
+		vsched.ObservePtr(reflectPtr(v))
+	}
+}
+
 func (w *word[T]) load(kind string) T {
 	vsched.Point("atomic-load", kind)
 	vsched.Acquire(&w.vc)
+	observe(w.v)
 	return w.v
 }
 func (w *word[T]) store(kind string, v T) {
@@ -35,6 +61,7 @@ func (w *word[T]) swap(kind string, v T) T {
 	vsched.Release(&w.vc)
 	o := w.v
 	w.v = v
+	observe(o)
 	vsched.Point("after-release", kind)
 	return o
 }
@@ -42,10 +69,12 @@ func (w *word[T]) cas(kind string, old, new T) bool {
 	vsched.Point("atomic-cas", kind)
 	vsched.Acquire(&w.vc)
 	if w.v != old {
+		vsched.Observe(0)
 		return false
 	}
 	vsched.Release(&w.vc)
 	w.v = new
+	vsched.Observe(1)
 	vsched.Point("after-release", kind)
 	return true
 }
@@ -58,6 +87,7 @@ func rmw[T number](w *word[T], kind string, f func(T) T) (T, T) {
 	o := w.v
 	w.v = f(o)
 	n := w.v
+	observe(o)
 	vsched.Point("after-release", kind)
 	return o, n
 }
@@ -276,3 +306,12 @@ func AddInt64(p *int64, d int64) int64         { return fadd(p, d, "int64") }
 func AddUint32(p *uint32, d uint32) uint32     { return fadd(p, d, "uint32") }
 func AddUint64(p *uint64, d uint64) uint64     { return fadd(p, d, "uint64") }
 func AddUintptr(p *uintptr, d uintptr) uintptr { return fadd(p, d, "uintptr") }
+
+func reflectPtr(v any) uintptr {
+	rv := reflect.ValueOf(v)
+	switch rv.Kind() {
+	case reflect.Pointer, reflect.UnsafePointer:
+		return rv.Pointer()
+	}
+	return 0
+}
